@@ -217,7 +217,7 @@ def n5_run(carve):
     }
     n, bad = 0, []
 
-    def expected(how, py):
+    def expected(how, py, lrows=lrows, rrows=rrows):
         out = []
         matched_r = set()
         for a in lrows:
@@ -246,7 +246,7 @@ def n5_run(carve):
                 for how in ("inner", "left", "full"):
                     if how == "full" and pname not in ("eq", "eq_swapped", "two_eq", "two_eq_second_swapped", "expr_key", "eq_float_int", "eq_int_float_swapped"):
                         continue
-                    for variant in ("plain", "right_hidden", "left_filtered", "right_const", "right_const_alias", "left_const", "right_filtered", "right_computed", "left_computed", "right_computed_alias", "right_nested_join_alias", "left_computed_alias"):
+                    for variant in ("plain", "right_hidden", "left_filtered", "left_filtered_alias", "right_filtered_alias", "right_const", "right_const_alias", "left_const", "right_filtered", "right_computed", "left_computed", "right_computed_alias", "right_nested_join_alias", "left_computed_alias"):
                         if "join_helper" in carve and False:
                             continue
                         n += 1
@@ -255,11 +255,12 @@ def n5_run(carve):
                             want = expected(how, py)
                             if variant == "right_hidden":
                                 rr = r >> pdt.select(r.y)  # the key of the right table is hidden; it is read through `r.k` afterwards
-                            if variant == "left_filtered":
-                                if how == "full":
-                                    continue
+                            if variant in ("left_filtered", "left_filtered_alias"):
+                                # a filter of an operand is applied BEFORE the join: rows it removes are neither matched nor padded
                                 ll = l >> pdt.filter(l.h > 1)
-                                want = [w for w in want if w[2] is not None and w[2] > 1]
+                                want = expected(how, py, lrows=[a for a in lrows if a[2] > 1])
+                                if variant == "left_filtered_alias":
+                                    ll = ll >> pdt.alias("lf")
                             extra_cols, extra_want = [], None
                             if variant in ("right_const", "right_const_alias"):
                                 # a constant column of the null-extended side must be NULL on unmatched rows
@@ -282,18 +283,16 @@ def n5_run(carve):
                                 ll = l >> pdt.mutate(cc=7)
                                 extra_cols = [ll.cc]
                                 want = [w + ((7,) if w[2] is not None else (None,)) for w in want]
-                            if variant == "right_filtered":
-                                if how == "full":
-                                    continue
+                            if variant in ("right_filtered", "right_filtered_alias"):
                                 rr = r >> pdt.filter(r.g != 2)
-                                lrows2 = lrows
-                                want = []
-                                for a in lrows:
-                                    m = [b for b in rrows if b[2] != 2 and py(a, b)]
-                                    want += [a[:3] + b for b in m]
-                                    if not m and how == "left":
-                                        want.append(a[:3] + (None, None, None))
+                                want = expected(how, py, rrows=[b for b in rrows if b[2] != 2])
+                                if variant == "right_filtered_alias":
+                                    rr = rr >> pdt.alias("rf")
                             lh_, rh_ = l, r  # the table objects through which the columns are referenced
+                            if variant == "left_filtered_alias":
+                                lh_ = ll
+                            if variant == "right_filtered_alias":
+                                rh_ = rr
                             if variant == "right_computed_alias":
                                 # the computed column sits below an alias(): the subquery requirement must see through it
                                 rr = r >> pdt.mutate(cc=pdt.when(r.k.is_null()).then(-1).otherwise(r.y.fill_null(0) + 1)) >> pdt.alias("rc")
@@ -370,7 +369,7 @@ def obligations(tier):
                                       functions=f, bounded=f"table widths {ls.w} and {rs.w} (names symbolic, collisions explored)", tags=("cross_backend",),
                                       carveouts={"join_helper_names": "no column is named __INDEX__ or <left column>_right"}, replayer=make_replayer(ls, rs, label, fn, "polars" if backend == "polars" else "sqlite")))
     obs.append(Obligation("C06/N5/native_matrix", "N5", "exact row combinations of inner / left / full joins natively", n5_run, functions=fns_p + [fi(H.sql_backend.SqlImpl.compile_ast)],
-                          bounded="15 predicate shapes (incl. pdt.all(...) of three predicates) (incl. Float64 vs Int64 keys, equalities written from either side) x 3 join kinds x 11 operand variants (plain, hidden right key, filtered left / right, constant or computed non-null-preserving column on either side, also below alias() and below a nested join) x 2 backends on one pair of 6-row tables with nulls, duplicates and unmatched rows"))
+                          bounded="15 predicate shapes (incl. pdt.all(...) of three predicates) (incl. Float64 vs Int64 keys, equalities written from either side) x 3 join kinds x 13 operand variants (plain, hidden right key, filtered left / right (also below alias(), also for full joins), constant or computed non-null-preserving column on either side, also below alias() and below a nested join) x 2 backends on one pair of 6-row tables with nulls, duplicates and unmatched rows"))
     obs.append(Obligation("C06/N6/wrappers", "N6", "inner_join / left_join / full_join / cross_join are join(how=...)", n6_run, functions=[fi(verbs_mod.inner_join), fi(verbs_mod.left_join), fi(verbs_mod.full_join), fi(verbs_mod.cross_join), fi(verbs_mod.join)],
                           bounded="3 wrappers x 3 keyword sets x 3 shapes of `on` (+ cross_join); the wrappers are straight-line calls"))
     return obs
